@@ -4,6 +4,10 @@ import json, os
 V = os.path.dirname(os.path.dirname(os.path.abspath(__file__)))
 TRUST = ("Trusted: nightly rustc MIR as a faithful rendering of the built code, the mir2c translator, the model library "
          "(SC atomics, test-and-set locks, one-token parker, bounded containers with solver-chosen iteration order), CBMC 6.11 + CaDiCaL. ")
+IDB = ("Abstractions: 2 addresses x 2 slots, 8-bit abstract U256/B256 values (only equality, zero tests and +/- matter), opaque bytecode ids, the "
+       "backing database is a fault-free ghost array, the beneficiary address is outside the domain (its path: C07); revm-state accessors "
+       "(is_touched/is_created/is_selfdestructed/is_empty/is_empty_code_hash/changed_storage_slots) are one-line restatements listed in "
+       "mir2c/revm_models.py; journal accounts carry their code when their code hash is non-empty and a code-hash loss comes with a nonce bump (revm). ")
 CLAIMS = {
  "C15": dict(
     text="Bounded model checking of the production cursor/frontier functions (MIR of cursor.rs, context.rs translated to C, "
@@ -58,6 +62,33 @@ CLAIMS = {
          "from a pre-state no history reaches would mean the invariant is too weak (none found). Pairs that split both roles, the pairs "
          "V||R, and n>3 are outside the claim. The three finality-loop body statements are harness glue around the real lock_finality_candidate.",
     design="5/C02"),
+ "C08": dict(
+    text="Bounded model checking of the real IncarnationDb read/publish code (storage, finish_incarnation, publish_writes, "
+         "FinalizedAccount::from; MIR -> C): for ANY multi-version-memory content below the reader storage() returns the slot version at/after "
+         "the newest reset marker, else zero behind a marker, else the backing value, records BOTH locations with the exact versions read, "
+         "and reports estimate writers as blockers; for ANY journal account (all 256 status bytes) a finished incarnation publishes exactly "
+         "the versions the property states for deleted / created / updated / untouched accounts; publish-then-read round trip: zero after "
+         "deletion or creation unless written by the creating transaction, untouched storage elsewhere.",
+    note=TRUST + IDB + "Per-fork normalisation of self-destruct / empty accounts happens inside revm before grevm sees the account: outside "
+         "the claim. The commit-side storage clearing (parallel_state.rs) is decided in C10.",
+    design="5/C08"),
+ "C09": dict(
+    text="Bounded model checking of the real code-change path (publish_writes' code_changed detection, IncarnationDb::basic, "
+         "code_by_address; MIR -> C): Code is published iff the post-state has non-empty code that differs from the code hash recorded at read "
+         "time; the account is published with code stripped; basic() resolves the latest preceding account version (incl. deletion) else the "
+         "backing account, fills code from the latest preceding Code version else from the backing store by the resolved hash, records both "
+         "locations and the snapshot; round trip for set / re-pointed / cleared / set-again code.",
+    note=TRUST + IDB + "Authorisation-list processing and nonce consumption are revm's: outside the claim.",
+    design="5/C09"),
+ "C01": dict(
+    text="The mechanism lemmas of parallel == in-order execution that a solver reaches on the real code: read resolution to the latest "
+         "preceding writer else backing state with exact version recording (storage / basic / code), what a finished incarnation publishes, "
+         "publish->read round trips, read-set validation against version and estimate flag, estimate marking and rewinds, timestamp fencing "
+         "and 'no stale result is finalised' as inductive steps from arbitrary invariant states (C02 kernels). Ordered commit: C03/C04.",
+    note=TRUST + IDB + "NOT decided (outside this technique's reach, see DESIGN.md): equality with stock revm on real transactions -- the revm "
+         "interpreter/journal, real ResultAndState, the bundle of a real block, the hardfork matrix -- and the end-to-end composition of the "
+         "lemmas over whole schedules (the protocol harness P of the design was not built).",
+    design="5/C01"),
 }
 NA = {}
 props = [json.loads(l) for l in open(os.path.join(V, "properties.jsonl"))]
